@@ -161,7 +161,7 @@ func (obj *SparseReal64Vector) APPEND(w *SparseReal64Vector) *SparseReal64Vector
   return r
 }
 func (obj *SparseReal64Vector) ToSparseReal64Matrix(n, m int) *SparseReal64Matrix {
-  if n*m != obj.n {
+  if n < 0 || m < 0 || n*m != obj.n {
     panic("Matrix dimension does not fit input vector!")
   }
   v := NullSparseReal64Vector(obj.n)
